@@ -106,3 +106,17 @@ Proof.
   unfold env_ok. repeat (apply Forall_cons || apply Forall_nil); (split; [|split]); cbn; try (intuition congruence).
   all: intros x Hx; cbn in Hx; cbn; intuition.
 Qed.
+
+(* parameters_bound_by_position: in the expansion of a helper call the i-th parameter -- blank ones count -- is replaced by the
+   i-th argument of the call; a named parameter behind a blank one does not get the blank one's argument *)
+Theorem C18_parameters_bound_by_position :
+  forall params args i p a,
+    nth_error params i = Some p -> nth_error args i = Some a ->
+    (forall j q, i < j -> nth_error params j = Some q -> q <> p) ->
+    lookup_arg (bind params args) p = Some (unparen a).
+Proof. exact bind_positional. Qed.
+Print Assumptions C18_parameters_bound_by_position.
+Example ex_blank_parameters :
+  subst (bind ["_"; "v"] [ex_mx; EParen None (EIndex None (EIdent None "m") (ELit None LString (Some (CStr "y"))))]) (ESel None (EIdent None "v") "Pure")
+  = ESel None (EIndex None (EIdent None "m") (ELit None LString (Some (CStr "y")))) "Pure".
+Proof. vm_compute. reflexivity. Qed.
